@@ -101,7 +101,7 @@ class NeedsUnitless(Exception):
 class OtherError(Exception):
     pass
 class Mixed(Exception):
-    """the evaluation meets a hash map holding two temperature bases: the known defect class"""
+    """(unused since fend commit 1210896: maps holding two temperature bases are merged correctly)"""
     pass
 
 
@@ -159,8 +159,6 @@ def spec_eval(t, units):
             return a                       # adding a zero is the one permitted no-op
         da, adja, _, ma = reduce_dims(a.dims)
         db, adjb, _, mb = reduce_dims(b.dims)
-        if ma or mb:
-            raise Mixed()
         if da != db:
             raise Incompatible()
         if None in (a.x, b.x, a.scale, b.scale, adja, adjb) or a.pw != b.pw:
@@ -173,8 +171,6 @@ def spec_eval(t, units):
             raise OtherError('right-hand side of unit conversion has a numerical value')
         da, adja, offa, ma = reduce_dims(a.dims)
         db, adjb, offb, mb = reduce_dims(b.dims)
-        if ma or mb:
-            raise Mixed()
         if da != db:
             raise Incompatible()
         if a.x == 0 and offa == offb:
@@ -434,7 +430,7 @@ def _check(c):
     val_idx, val_lines = [], []
     for i, (sp, e) in enumerate(zip(specs, ev)):
         if sp[0] == 'ok' and e[0] == 'o' and sp[1].exact and base_value(sp[1]) is not None and set(sp[1].dims) <= BASE \
-                and all(ex.denominator == 1 for ex in sp[1].dims.values()) and not (len([k for k in sp[1].dims if k in TEMPS]) > 1):
+                and all(ex.denominator == 1 for ex in sp[1].dims.values()):
             den = ' '.join('%s^%d' % (k, int(ex)) for k, ex in sorted(sp[1].dims.items()))
             val_idx.append(i)
             val_lines.append('@noapprox ((%s / (1 %s)) to unitless) to fraction' % (texts[i], den) if den else '@noapprox (%s to unitless) to fraction' % texts[i])
@@ -478,20 +474,17 @@ def _check(c):
                 m = re.search(r"units '(.*)' and 'zz' are incompatible", z[1]) if z[0] == 'e' else None
                 want, _, _, mixed = reduce_dims(s.dims)
                 if m is None:
-                    if not (mixed and c.known_finding('temperature_mix_overwrite')):
-                        bad = dict(rep, what="conversion to a fresh base unit did not fail with a base-unit message", zz=z)
+                    bad = dict(rep, what="conversion to a fresh base unit did not fail with a base-unit message", zz=z)
                 else:
                     try:
                         got = parse_base_units(m.group(1))
                     except Exception:
                         got = None
                     if got != want:
-                        if mixed:
-                            known_mix += 1
-                            if not c.known_finding('temperature_mix_overwrite'):
-                                bad = dict(rep, what='dimension of the result differs from physics (temperature bases mixed)', printed=m.group(1), want=U.dims_str(want))
-                        else:
-                            bad = dict(rep, what='dimension of the result differs from physics', printed=m.group(1), want=U.dims_str(want))
+                        bad = dict(rep, what='dimension of the result differs from physics' + (' (temperature bases mixed)' if mixed else ''),
+                                   printed=m.group(1), want=U.dims_str(want))
+                    if mixed:
+                        known_mix += 1
                 if bad is None and i in vals:
                     v = vals[i]
                     pn = C4.parse_num(v[1]) if v[0] == 'o' else None
@@ -500,7 +493,7 @@ def _check(c):
         if bad and nbad < 25:
             nbad += 1
             c.violation('dimension-' + re.sub(r'[^a-z]+', '-', bad['what'])[:40], bad)
-    c.extra['known_class_cases'] = known_mix
+    c.extra['trees_mixing_temperature_bases'] = known_mix
     c.sample({'op': 'L2', 'input': texts[5], 'impl': ev[5], 'base_units': zz[5][1][-80:]})
 
     # ---- L1: raw evaluator result vs the extracted model
@@ -515,9 +508,7 @@ def _check(c):
         if not (isinstance(p, list) and len(p) == 2):
             c.violation('model-bad-answer', {'kind': 'tie', 'input': texts[i], 'model': o[:300]}, no_input=True)
             continue
-        res, unm = p
-        if specs[i][0] == 'mixed' or unm == 0:
-            continue                      # hash-order dependent in the implementation
+        res, _ = p
         if isinstance(res, list) and res and res[0] == b'ok':
             mv = ('ok', U.m_value(res[1]))
         elif isinstance(res, list) and res and res[0] == b'err':
@@ -545,7 +536,7 @@ def _check(c):
 
     # ---- pure-number functions reject dimensioned arguments; zero addition
     dimd = [(x, txt, sp[1]) for x, txt, sp in zip(trees, texts, specs)
-            if sp[0] == 'ok' and reduce_dims(sp[1].dims)[0] and not reduce_dims(sp[1].dims)[3]][: (300 if c.tier == 'quick' else 3000)]
+            if sp[0] == 'ok' and reduce_dims(sp[1].dims)[0]][: (300 if c.tier == 'quick' else 3000)]
     forms = ['ln(%s)', 'log2(%s)', 'log10(%s)', '(%s) mod 7', '(%s) xor 3', '(%s)!', '(%s) nCr 2', '(%s) nPr 2', '2^(%s)', '7 mod (%s)', 'fib(%s)']
     fl, fmeta = [], []
     for x, txt, s in dimd:
@@ -559,9 +550,8 @@ def _check(c):
             continue
         if o[0] != 'e':
             c.violation('dimensioned-argument-accepted', {'kind': 'impl-vs-spec', 'input': inp, 'impl': o})
-    # (a value whose own units mix temperature bases is not even equal to itself, reliably: known class)
     okt = [(txt, sp[1]) for txt, sp, e in zip(texts, specs, ev)
-           if sp[0] == 'ok' and e[0] == 'o' and not reduce_dims(sp[1].dims)[3]][: (300 if c.tier == 'quick' else 3000)]
+           if sp[0] == 'ok' and e[0] == 'o'][: (300 if c.tier == 'quick' else 3000)]
     other = ['kg', 's', 'K', 'USD', 'bit', 'm^2']
     za = l2(c, ['((%s) + (0 %s)) == (%s)' % (txt, r.choice(other), txt) for txt, s in okt])
     for (txt, s), o in zip(okt, za):
@@ -569,11 +559,18 @@ def _check(c):
         if o != ('o', 'true'):
             c.violation('zero-addition-not-a-noop', {'kind': 'impl-vs-spec', 'input': '((%s) + (0 <unit>)) == (%s)' % (txt, txt), 'impl': o})
 
-    # ---- the known defect, deterministic probes
-    pr = l2(c, ['(1 celsius kelvin) + (1 kelvin)', '(1 J/(kg celsius)) * (1 K) * (1 kg) to J'])
-    if pr[0][0] == 'o' or pr[1][0] == 'e':
-        if not c.known_finding('temperature_mix_overwrite'):
-            c.violation('temperature-mix', {'kind': 'impl-vs-spec', 'input': '(1 celsius kelvin) + (1 kelvin)', 'impl': pr})
+    # ---- regression witnesses of the repaired defect temperature_mix_overwrite (fend commit 1210896),
+    #      repeated because the old behaviour depended on the hash order of the run
+    wit = ['(1 celsius kelvin) + (1 kelvin)', '(1 J/(kg celsius)) * (1 K) * (1 kg) to J', '1 celsius^2 kelvin^3 to kelvin^5',
+           '1 celsius^2 kelvin^3 to kelvin^2', '((9 fahrenheit)^2 * (1 K)) == ((9 fahrenheit)^2 * (1 K))', '(1 celsius / kelvin) to unitless']
+    want = ['e', ('o', '1 J'), ('o', '1 kelvin^5'), 'e', ('o', 'true'), ('o', '1')]
+    for rep in range(4):
+        pr = l2(c, wit)
+        for inp, w, got in zip(wit, want, pr):
+            c.note_case('witness:' + inp, True, 'regression-witness')
+            good = (got[0] == 'e' and 'incompatible' in got[1]) if w == 'e' else got == w
+            if not good and not c.known_finding('temperature_mix_overwrite'):
+                c.violation('temperature-mix', {'kind': 'impl-vs-spec', 'input': inp, 'impl': got, 'want': w})
 
 
 def same_units(a, b):
